@@ -39,6 +39,9 @@ def worker_init(x64: bool, repo: str) -> None:
     if src not in sys.path[:1]:
         sys.path.insert(0, src)
     signal.signal(signal.SIGALRM, _alarm)
+    import warnings
+
+    warnings.filterwarnings('ignore', message='JAX is not using 64-bit')
     import jax  # noqa: F401
 
     jax.config.update('jax_enable_x64', bool(x64))
